@@ -2,7 +2,7 @@
 """Regenerates section 8 of DESIGN.md (detection table) from seeded/*/meta.json and mutants/RESULTS.md."""
 import glob, json, os, re
 rows = []
-for d in sorted(glob.glob('/verif/seeded/*')):
+for d in sorted(x for x in glob.glob('/verif/seeded/*') if os.path.isdir(x)):
     m = json.load(open(d + '/meta.json'))
     rows.append((os.path.basename(d), m['property'], m['needs_to_manifest'], m['check_verdict_when_first_tried'], m['check_verdict_now']))
 mut = {}
